@@ -1,11 +1,35 @@
 (* Properties_C16.v — C16: I/O failures are reported, never swallowed.
-   Statements are added as the proofs land. *)
+   Statements only; proofs in FaultProof.v (writer side) and TruncProof.v
+   (reader side, added when it lands). *)
 From Coq Require Import List ZArith.
-Require Import Tok CborEnc Writer.
+Require Import Tok CborEnc JsonEnc Writer FaultProof.
 Import ListNotations.
 Open Scope Z_scope.
 
-(* sanity (kernel-evaluated): the 2nd Write failing once is reported at the token that wrote it *)
+(* If the faulty Write call is one of the calls the document needs (and a
+   "short" fault hits a non-empty write), the run returns the error — at or
+   before the token on which the fault-free run would have finished. *)
+Theorem C16_cbor_write_fault_reported : forall ts chunks used p,
+  enc_tokens ts = Finished chunks used ->
+  (1 <= wk p <= length chunks)%nat ->
+  effective (wkind p) (nth (wk p - 1) chunks []) = true ->
+  exists j, (1 <= j <= used)%nat /\ cbor_write_faulty p ts = WReported j.
+Proof. exact cbor_write_fault_reported. Qed.
+Print Assumptions C16_cbor_write_fault_reported.
+
+Theorem C16_json_write_fault_reported : forall sh o ts chunks used p,
+  jenc_tokens sh o ts = JFinished chunks used ->
+  (1 <= wk p <= length chunks)%nat ->
+  effective (wkind p) (nth (wk p - 1) chunks []) = true ->
+  exists j, (1 <= j <= used)%nat /\ json_write_faulty sh o p ts = WReported j.
+Proof. exact json_write_fault_reported. Qed.
+Print Assumptions C16_json_write_fault_reported.
+
+Theorem C16_no_fault_no_error : forall ts chunks used p,
+  enc_tokens ts = Finished chunks used -> (length chunks < wk p)%nat ->
+  cbor_write_faulty p ts = WFinished used.
+Proof. exact cbor_no_fault_unchanged. Qed.
+
 Example C16_example :
   cbor_write_faulty (WPlan 2 false WErr) [Tok (ArrOpen 1) None; Tok (Str [97]) None; Tok ArrClose None] = WReported 2.
 Proof. vm_compute. reflexivity. Qed.
